@@ -2,3 +2,24 @@ NA={}
 add('C01','model_checking','explicit-state BFS over operation sequences on the real cachekv stack vs map-overlay model',
  'Every operation sequence up to the stated depth over a colliding key/range alphabet is executed on real cachekv.Store stacks and compared step by step with a stack-of-maps model; states merged on the implementation bookkeeping read by reflection.',
  'Bounded depth/alphabet; operations on the innermost wrap only; open iterators compared with creation-time snapshot.')
+add('C02','model_checking','exhaustive enumeration of parent contents x prefixes x write sequences on the real prefix.Store vs filter-by-prefix model',
+ 'All subsets of a 8-9 key parent universe x 5 prefixes (incl. 0xFF carries, nested) x 3 parent kinds x write sequences; every Get/Has/range iteration in both directions and the parent content compared with a map model.',
+ 'Bounded universe; empty key not used with empty prefix.')
+add('C03','model_checking','explicit-state BFS + fixpoint over all reachable tree shapes of the real iavl.MutableTree vs per-version map model',
+ 'Every op sequence (set/remove/save/rollback/deleteVersion) to a depth, the complete reachable (key set, shape) space for up to 11-13 keys without saves, and every insert-order x remove-order of 5-6 keys; all read APIs of the working tree and each retained version compared with maps; AVL/size/inner-key invariants via the VerifShape hook.',
+ 'Bounded key universe/depth; MemDB backend.')
+add('C04','model_checking','explicit-state BFS over set/delete/commit histories of the real rootmulti.Store with reopen-from-disk and twin-node oracles',
+ 'At every committed state of every history up to the depth a fresh store reopens a byte copy of the DB (latest and every version) and must reproduce contents and commit ids; a second node re-applying the blocks must agree on every hash.',
+ 'MemDB stands in for goleveldb; fresh objects stand in for a new process.')
+add('C06','model_checking','explicit-state BFS over persistent/transient write + commit histories of the real rootmulti.Store with differential twin nodes',
+ 'Version increments, transient emptiness after commit and independence of the app hash from transient writes/mounting are checked in every reachable state up to the depth.',
+ 'Store-level (rootmulti); bounded alphabet.')
+add('C08','model_checking','explicit-state BFS over commit histories x every rollback target on the real rootmulti.Store',
+ 'For every committed state and every earlier target: rollback on a DB copy, reopen, compare height/hash/contents with the model, later versions unreadable through 4 APIs, re-applied blocks reproduce original hashes.',
+ 'Rollback to height 0 not exercised; MemDB backend.')
+add('C09','model_checking','explicit-state BFS over write/commit/open-historical-view histories on the real rootmulti.Store',
+ 'Every open historical view (lazy-loaded and versioned cache multistore) and every store query at every retained height is compared with the map committed at that height in every reachable state, with IAVL node cache 1 and default.',
+ 'Store-level; PrevCtx wrapper covered by the chain checks.')
+add('C10','model_checking','explicit-state BFS + long-chain enumeration, pairwise differential cache-on vs cache-off node on the same DB',
+ 'Every read at every committed height on a cache-enabled live node equals the same read on a cache-disabled node opened on a byte copy of the DB, in every reachable state up to the depth and along 108 15-block chains that recycle cache slots.',
+ 'Bounded alphabet; compares all heights rather than only those served from the cache.')
